@@ -14,6 +14,8 @@ SPEC = {
         {"name": "inhibit", "pkg": "./inhibit", "search_cases": 20000},
         # the whole pipeline: the assembled instance (engine sys of C01/C04/C05) never lists a suppressed alert in a notification
         {"name": "sys", "pkg": "./sys", "search_cases": 4000, "quick_cases": 250, "timeout_quick": 90, "only": ["mutes_iff_spec"]},
+        # "an inhibited alert is reported as suppressed with an inhibiting alert by the API": the real application (C17's engine, op astatus)
+        {"name": "reload", "pkg": "./reload", "search_cases": 4, "timeout_quick": 400, "timeout_thorough": 900, "timeout_search": 400, "only": ["status_reports_a_real_inhibitor"]},
     ],
     "rule": "random histories on the real mem.Alerts provider + inhibit.Inhibitor under synctest virtual time: 1-3 rules "
             "(matchers with all four operators over sev/role/x/e, 0-2 equal labels, sides that overlap), a pool of 4-7 label sets "
